@@ -421,6 +421,17 @@ def parse_mir(text):
     i, n = 0, len(lines)
     while i < n:
         ln = lines[i]
+        mconst = re.match(r"const (.*::promoted\[\d+\]): (.*) = \{\s*$", ln)
+        if mconst:
+            j = i + 1
+            body = []
+            while j < n and lines[j] != "}":
+                body.append(lines[j])
+                j += 1
+            f = parse_function("fn %s() -> %s {" % (mconst.group(1), mconst.group(2)), body)
+            funcs[f.name] = f
+            i = j + 1
+            continue
         if ln.startswith("fn ") and ln.rstrip().endswith("{"):
             hdr = ln
             j = i + 1
